@@ -151,7 +151,15 @@ def run(pid, tier):
     rels = sorted(pinned)
     eff = tier if (not res.broken or tier == 'thorough') else 'search'
     step = {'quick': 20, 'search': 6}.get(eff, 1)
-    rels = rels[common.seed() % step::step] if step > 1 else rels
+    if step > 1:
+        sample = rels[common.seed() % step::step]
+        # plus the files in which each syntactic feature the size options act on is densest (corpus/FEATURES.json, computed from the pinned files)
+        try:
+            import json as _json
+            dense = {r_ for v in _json.load(open(os.path.join(common.VERIF, 'corpus', 'FEATURES.json'))).values() for r_ in v}
+        except Exception:
+            dense = set()
+        rels = sorted(set(sample) | (dense & set(rels)))
     paths = [os.path.join(common.STDLIB, r) for r in rels]
     srcdir = os.path.join(common.REPO, 'src', 'python_minifier')
     extra = [os.path.join(d, f) for d, _x, fs in os.walk(srcdir) for f in sorted(fs) if f.endswith('.py')]
@@ -183,7 +191,7 @@ def run(pid, tier):
                 res.add_violation('c17-longer:%s:%s:%s' % (rel, o, bname), 'enabling %s on base %s makes %s longer (%d -> %d characters)' % (o, bname, rel, a, b), det)
     res.samples = [{'file': rels[0], 'options': SIZE_OPTS, 'bases': ['all-off', 'defaults-minus-o']}]
     res.coverage.update({'leg_K_distinct_bindings_compared': nK, 'leg_K_reference_kinds': kindsK, 'files': len(results) - skipped, 'files_skipped_hash_mismatch': skipped, 'triples_measured': n, 'verdicts': dict(hist), 'triples_where_option_shrinks_output': dict(shrink),
-                         'explanation': 'For every pinned corpus file, every size option o and both bases {all off, defaults minus o}: len(minify(S, base+o)) <= len(minify(S, base)) was measured with CPython; quick = every %d-th file (offset by VERIF_SEED), thorough = all files. The Coq theorems cover the local soundness of the cost model only.' % step,
+                         'explanation': 'For every pinned corpus file, every size option o and both bases {all off, defaults minus o}: len(minify(S, base+o)) <= len(minify(S, base)) was measured with CPython; quick = every %d-th file (offset by VERIF_SEED) plus the feature-dense files of corpus/FEATURES.json, thorough = all files. The Coq theorems cover the local soundness of the cost model only.' % step,
                          'evaluations': n, 'distinct_nontrivial': sum(shrink.values()), 'exhaustive': step == 1,
                          'rule': 'case = (file, option, base); non-trivial = the option actually shrinks the output of that file'})
     return res.finish(level='other')
